@@ -560,6 +560,25 @@ def long_prefix_docs():
     return out
 
 
+def recorded_known_docs(searching_for=""):
+    """Documents of findings already recorded in known_findings.json: they are replayed on their own by the pack's
+    known_findings hook and must not be taken for a reproduction of whatever obligation is being searched for."""
+    import json
+    import os
+    out = []
+    try:
+        with open(os.path.join(os.path.dirname(os.path.dirname(os.path.abspath(__file__))), "known_findings.json")) as fh:
+            for f in json.load(fh).get("findings", []):
+                w = f.get("witness") or {}
+                if searching_for and searching_for in ([f.get("obligation")] + list(f.get("covers") or [])):
+                    continue        # the search IS for the recorded finding's own obligation
+                if f.get("property") == "C17" and w.get("markup_builder"):
+                    out.append(dict(w["markup_builder"], only=w.get("only")))
+    except Exception:  # noqa
+        pass
+    return out
+
+
 def search(only=None, limit=None, known=()):
     global ROUTE_SAMPLE
     n = 0
@@ -614,11 +633,12 @@ def find(req):
         d = globals()[kw["markup_builder"]["fn"]]()[kw["markup_builder"]["index"]]
         return check_markup(d, only=tuple(kw.get("only") or ()) or None) or {"reproduced": False, "note": "recorded document now agrees with the region spec"}
     if "msg_email_extractor" in ob:
-        for d in long_prefix_docs() + deep_docs():          # directed: evidence position / removed-content length / nesting depth
+        known_fns = {k["fn"] for k in recorded_known_docs(ob)}
+        for d in long_prefix_docs() + ([] if "deep_docs" in known_fns else deep_docs()):   # directed: evidence position / removed length / depth
             bad = check_markup(d, only=only)
             if bad:
                 return bad
-    return search(only=only, known=req.get("known_docs") or ())
+    return search(only=only, known=req.get("known_docs") or recorded_known_docs(ob))
 
 
 def rerun(stored):
